@@ -2,7 +2,7 @@
 
 TRUSTED_BASE = [
     "Coq 8.16.1 kernel (coqc, full .vo build; vm_compute used for witnesses, finite sweeps and correspondence evaluation; native_compute not used)",
-    "translator /verif/translator (Go, go/parser+go/ast): renders the constant blocks, flag helpers and scalar guard fragments of /repo into coq/Generated.v on every run; fails rather than guesses",
+    "translator /verif/translator (Go, go/parser+go/ast): renders the constant blocks, flag helpers, scalar guard fragments and the bodies of the push loops of /repo into coq/Generated.v (T1), and a statement-level IR of every function into coq/GeneratedIR.v (T2: stores, nil dereferences, lock operations, external calls, and - in the result-tracking variants of the bodies - every place where a result may become non-zero; its classification of locations, of 'same object' calls, of fresh values and of syntactically zero expressions is trusted) on every run; fails rather than guesses",
     "correspondence check: /verif/harness (Go, built with -tags verif against /repo's working tree), tools/check.py (shard generation, parsing of coqc output); differential testing, reported with measured counts",
     "Go toolchain/runtime used to run the implementation side; no extraction (no Extract Constant / Extract Inductive directives)",
 ]
@@ -53,7 +53,7 @@ PROPS = {
             "race": {"mode": "queries", "rounds": [25, 800], "workers": 12},
             "assumptions": ["user closures and foreign String methods are assumed pure", "race-freedom is argued from 'no writes on any query path'; the Go memory model and scheduler are not modelled (partial)"]},
     "C17": {"props_file": "Props/C17.v", "families": ["zeroreflect", "awkward"], "design_ref": "DESIGN.md §8 C17",
-            "level_text": "Static theorem c17_zero_inert_every_method over the regenerated guard IR: for every exported method in the source now (except Marshal and Condition.Init) no path on a zero/freed receiver dereferences the nil embedded pointer or the missing configuration record, and none stores into the receiver; nil Auxiliary methods do not dereference. Reset keeps the configuration record and empties the content (nil elements included). Dynamic leg: every method found by reflection x argument variants x {zero, freed, Init()-only Condition, nil Auxiliary}: no panic, zero results, IsZero/IsInit unchanged.",
+            "level_text": "c17_zero_results_every_method: over the regenerated IR with result tracking, on a zero or freed receiver NO path of any exported method (124 of 136; exceptions: the initialisers, error-returning Valid/IsEqual, truthful IsZero/IsEmpty, sentinel strings of ID/Kind/Addr) reaches a place where a result could become non-zero, for all arguments. Static theorem c17_zero_inert_every_method over the regenerated guard IR: for every exported method in the source now (except Marshal and Condition.Init) no path on a zero/freed receiver dereferences the nil embedded pointer or the missing configuration record, and none stores into the receiver; nil Auxiliary methods do not dereference. Reset keeps the configuration record and empties the content (nil elements included). Dynamic leg: every method found by reflection x argument variants x {zero, freed, Init()-only Condition, nil Auxiliary}: no panic, zero results, IsZero/IsInit unchanged.",
             "technique": "Coq-proved static analysis over a regenerated guard IR + reflection-driven differential check",
             "assumptions": ["panics other than nil dereference of the embedded pointer / configuration record are covered by the dynamic family only"]},
     "C10": {"props_file": "Props/C10.v", "families": ["sched"], "design_ref": "DESIGN.md §8 C10",
